@@ -191,6 +191,29 @@ func (c *Ctx) checkSanitizerTable(rule string) {
 		c.missing(rule, "tally.NewSanitizer / ValidCharacters.sanitizeFn")
 		return
 	}
+	// sanitizeFn hands out its validating closure on every path: an empty allow-list means "nothing is
+	// allowed" (every rune is replaced), not "nothing to check"
+	{
+		okAll := true
+		for _, r := range returnsOf(sfn) {
+			for _, va := range resultValues(r, 0) {
+				mc, isMC := stripConv(va.Val).(*ssa.MakeClosure)
+				if f, _ := func() (*ssa.Function, bool) {
+					if !isMC {
+						return nil, false
+					}
+					g, ok := mc.Fn.(*ssa.Function)
+					return g, ok
+				}(); f == nil || f.Parent() != sfn {
+					okAll = false
+					c.bad(rule, c.fnKey(sfn)+":result", r.Pos(), "sanitizeFn can return something other than its validating closure (a pass-through for some configurations): strings of that kind reach the reporter unsanitized, including invalid byte sequences", c.describe(r))
+				}
+			}
+		}
+		if okAll {
+			c.ok(rule, c.fnKey(sfn)+":result", sfn.Pos(), "every return hands out the validating closure")
+		}
+	}
 	c.sawFunc(c.fnKey(ns))
 	want := map[string]string{"nameFn": "NameCharacters", "keyFn": "KeyCharacters", "valueFn": "ValueCharacters"}
 	got := map[string]string{}
